@@ -200,3 +200,33 @@ pub fn connect_sig_ref(c: &crate::refcodec::Connect) -> u64 {
     }
     f.0
 }
+
+
+/// A stub service with the two behaviours `fn_service` cannot show: a readiness check that starts to fail
+/// (`World::svc_ready_failed`) and a shutdown that takes simulated time (`World::svc_shutdown`).
+pub struct GSvc<F> {
+    pub w: std::rc::Rc<crate::world::World>,
+    pub conn: usize,
+    pub f: F,
+}
+
+impl<F, Req, Fut, Res> ntex_service::Service<Req> for GSvc<F>
+where
+    F: Fn(Req) -> Fut,
+    Fut: std::future::Future<Output = Result<Res, AppErr>>,
+{
+    type Response = Res;
+    type Error = AppErr;
+
+    async fn call(&self, req: Req, _: ntex_service::ServiceCtx<'_, Self>) -> Result<Res, AppErr> {
+        (self.f)(req).await
+    }
+
+    async fn ready(&self, _: ntex_service::ServiceCtx<'_, Self>) -> Result<(), AppErr> {
+        if self.w.svc_ready_failed(self.conn) { Err(AppErr::Fatal) } else { Ok(()) }
+    }
+
+    async fn shutdown(&self) {
+        self.w.svc_shutdown(self.conn).await;
+    }
+}
